@@ -111,6 +111,17 @@ type c18StringTag struct {
 	In c18Leaf `json:"in,string"`
 }
 
+// the ",string" option reaches through ONE pointer level only: behind two or more the number or boolean is written bare
+type c18StringTagDeep struct {
+	PP  **int      `json:"pp,string"`
+	PB  **bool     `json:"pb,string"`
+	PF  ***float64 `json:"pf,string"`
+	PS  **string   `json:"ps,string"`
+	P1  *uint16    `json:"p1,string"`
+	PN  *c18Count  `json:"pn,string"`
+	PPN **c18Count `json:"ppn,string,omitempty"`
+}
+
 // a struct that embeds a pointer to its own type (encoding/json promotes nothing from it and writes the other fields)
 type c18SelfEmbed struct {
 	*c18SelfEmbed
@@ -192,7 +203,7 @@ func c18StaticTypes() []reflect.Type {
 		reflect.TypeOf(c18Named{}), reflect.TypeOf([]c18Level{}), reflect.TypeOf(c18Levels{}), reflect.TypeOf(c18Hash{}), reflect.TypeOf([]c18Hash{}), reflect.TypeOf(map[string][]c18Level{}),
 		reflect.TypeOf(c18Dict{}), reflect.TypeOf([]c18Name{}), reflect.TypeOf([]*c18Level{}),
 		reflect.TypeOf(c18GTree[int]{}), reflect.TypeOf(c18GTree[string]{}), reflect.TypeOf(c18GPair[string, uint8]{}), reflect.TypeOf(c18GBox[c18Leaf]{}), reflect.TypeOf([]c18GTree[float64]{}),
-		reflect.TypeOf(c18GBox[c18GTree[int]]{}), reflect.TypeOf(c18EmbedCollisionOuterFirst{}), reflect.TypeOf(c18StringTag{}), reflect.TypeOf([]c18StringTag{}), reflect.TypeOf(c18SelfEmbed{}),
+		reflect.TypeOf(c18GBox[c18GTree[int]]{}), reflect.TypeOf(c18EmbedCollisionOuterFirst{}), reflect.TypeOf(c18StringTag{}), reflect.TypeOf([]c18StringTag{}), reflect.TypeOf(c18SelfEmbed{}), reflect.TypeOf(c18StringTagDeep{}), reflect.TypeOf(map[string]c18StringTagDeep{}),
 		reflect.TypeOf(c18Leaf{}), reflect.TypeOf(c18Tree{}), reflect.TypeOf(&c18Tree{}), reflect.TypeOf([]c18Tree{}), reflect.TypeOf([]*c18Tree{}), reflect.TypeOf(map[string]*c18Tree{}),
 		reflect.TypeOf(c18A{}), reflect.TypeOf(c18B{}), reflect.TypeOf(c18EmbedCollision{}), reflect.TypeOf(c18EmbedPlain{}), reflect.TypeOf(c18EmbedPtr{}), reflect.TypeOf(c18Times{}),
 		reflect.TypeOf([]*int{}), reflect.TypeOf(map[string]*string{}), reflect.TypeOf([][]*string{}), reflect.TypeOf(map[string][]*c18Leaf{}), reflect.TypeOf([]map[string]*int8{}),
@@ -238,6 +249,8 @@ func c18RandomType(r *rand.Rand, depth int) reflect.Type {
 				tag = fmt.Sprintf(`json:"%s,omitempty"`, jname)
 			case 1:
 				tag = `json:"-"`
+			case 2:
+				tag = fmt.Sprintf(`json:"%s,string"`, jname)
 			}
 			fields = append(fields, reflect.StructField{Name: name, Type: c18RandomType(r, depth-1), Tag: reflect.StructTag(tag)})
 		}
